@@ -78,7 +78,13 @@ func runManuf(c ManufCase) (res ev.Result) {
 	if !c.Request {
 		v.SendingData = backing[:len(v.SendingData)]
 	}
-	ev.Try(func() { _ = append(v.SysEx(), 0xEE, 0xEE, 0xEE, 0xEE) }) // the caller may append to what it got
+	ev.Try(func() { // the caller may append to what it got, and overwrite it
+		x := v.SysEx()
+		_ = append(x, 0xEE, 0xEE, 0xEE, 0xEE)
+		for i := range x {
+			x[i] ^= 0xFF
+		}
+	})
 	if p := ev.Try(func() { got = v.SysEx() }); p != "" {
 		res.Violation = "SysEx() " + p
 		return
@@ -278,6 +284,13 @@ func runGoTo(c GoToCase) (res ev.Result) {
 	var got []byte
 	var back mmc.GoTo
 	var err error
+	ev.Try(func() { // a caller that appends to and overwrites the message it got
+		x := g.SysEx()
+		_ = append(x, 0xEE, 0xEE)
+		for i := range x {
+			x[i] ^= 0xFF
+		}
+	})
 	if p := ev.Try(func() { got = g.SysEx(); err = back.Parse(append([]byte{}, got...)) }); p != "" {
 		res.Violation = p
 		return
@@ -309,6 +322,13 @@ func runMsg(c MsgCase) (res ev.Result) {
 	var got []byte
 	var back mmc.Message
 	var err error
+	ev.Try(func() { // a caller that appends to and overwrites the message it got (e.g. patches the device id)
+		x := m.SysEx()
+		_ = append(x, 0xEE, 0xEE)
+		for i := range x {
+			x[i] ^= 0xFF
+		}
+	})
 	if p := ev.Try(func() { got = m.SysEx(); err = back.Parse(append([]byte{}, got...)) }); p != "" {
 		res.Violation = p
 		return
